@@ -307,6 +307,7 @@ theorem run_peggy_grows (ord : List Group → List Group) (steps : List Step) (w
     cases st with
     | setVals v => exact h
     | restart => exact h
+    | blocks n => exact h
     | msg m => exact Sif.Props.C06.peggy_only_grows ord w.vals w.s m d h
 
 /-- **What the bridge minted is pegged, for good.**  Every denomination a history credited for a consensus-approved
@@ -329,6 +330,7 @@ theorem minted_only_burnable (ord : List Group → List Group) (steps : List Ste
         cases st with
         | setVals v => simp [stepMinted] at h1
         | restart => simp [stepMinted] at h1
+        | blocks n => simp [stepMinted] at h1
         | msg m =>
           cases m with
           | claim cm =>
